@@ -60,7 +60,7 @@ def mkdate(us):
 
 
 @st.composite
-def base_case(draw, methods, hmin=5, hmax=120, even=False):
+def base_case(draw, methods, hmin=5, hmax=120, even=False, pframes=False):
     el = draw(go.elements(elliptic=True, hyperbolic=False, emax_ell=0.7, rp_range=(1.03, 7.0), mwind=0.5))
     mu = go.MU["Earth"]
     rp = el["a"] * (1 - el["e"])
@@ -72,7 +72,14 @@ def base_case(draw, methods, hmin=5, hmax=120, even=False):
     method = draw(st.sampled_from(methods))
     back = draw(st.integers(0, 3)) == 0
     return dict(el=el, h=h, method=method, back=back, label=draw(st.sampled_from(LABELS)),
-                epoch_label=draw(st.sampled_from(LABELS)))
+                epoch_label=draw(st.sampled_from(LABELS)),
+                # the form and the (non-rotating) frame the initial orbit is held in
+                form=draw(st.sampled_from(["cartesian", "cartesian", "cartesian", "keplerian", "equinoctial", "spherical", "keplerian_mean"])),
+                frame=draw(st.sampled_from(["EME2000", "EME2000", "EME2000", "GCRF", "MOD", "G50"])),
+                # the frame the propagator integrates (and answers) in: its `frame` argument
+                # (rarely another one: the body's position is then converted at every stage, 10x the cost)
+                # (only where targets are a few steps away: the body's position is converted at every stage)
+                pframe=draw(st.sampled_from(["EME2000"] * 21 + ["GCRF", "MOD", "G50"])) if pframes else "EME2000")
 
 
 def build(case, h=None, tol=1e-3):
@@ -84,8 +91,19 @@ def build(case, h=None, tol=1e-3):
     earth = get_body("Earth")
     mu = earth.mu
     cart = tb.kep2cart(el["a"], el["e"], el["i"], el["raan"], el["argp"], el["nu"], mu)
-    prop = KeplerNum(timedelta(seconds=h or case["h"]), earth, method=case["method"], tol=tol)
-    return Orbit(cart, mkdate(0), "cartesian", "EME2000", prop), cart, mu
+    pframe = case.get("pframe", "EME2000")
+    if pframe == "EME2000":
+        prop = KeplerNum(timedelta(seconds=h or case["h"]), earth, method=case["method"], tol=tol)
+    else:
+        prop = KeplerNum(timedelta(seconds=h or case["h"]), earth, method=case["method"], tol=tol, frame=pframe)
+    orb = Orbit(cart, mkdate(0), "cartesian", case.get("frame", "EME2000"), prop)
+    if case.get("form", "cartesian") != "cartesian":
+        orb.form = case["form"]
+    if case.get("form", "cartesian") != "cartesian" or case.get("frame", "EME2000") != pframe:
+        # the numbers the propagator starts from: the orbit re-expressed in the propagator's frame (the
+        # conversions themselves are C01's and C02's matter)
+        cart = np.asarray(orb.copy(form="cartesian", frame=pframe).base, float)
+    return orb, cart, mu
 
 
 def pos(sv):
@@ -192,7 +210,7 @@ def check_adaptive(case):
 
 @st.composite
 def short_case(draw):
-    c = draw(base_case(["euler", "rk4", "rkf54", "dopri54"]))
+    c = draw(base_case(["euler", "rk4", "rkf54", "dopri54"], pframes=True))
     c["T_us"] = draw(go.uniform_int(-8 * c["h"] * 10**6, 8 * c["h"] * 10**6))
     if draw(st.integers(0, 3)) == 0:  # on the grid
         c["T_us"] = round(c["T_us"] / (c["h"] * 1e6)) * c["h"] * 10**6
